@@ -53,6 +53,10 @@ import (
 	scheduler "github.com/oasisprotocol/oasis-core/go/scheduler/api"
 	staking "github.com/oasisprotocol/oasis-core/go/staking/api"
 
+	"github.com/spf13/viper"
+
+	cmdFlags "github.com/oasisprotocol/oasis-core/go/oasis-node/cmd/common/flags"
+
 	"verifharness/internal/coqout"
 	"verifharness/internal/prng"
 )
@@ -280,6 +284,67 @@ func newWorld() *world {
 
 func (w *world) close() { w.ctx.Close() }
 
+// referenceChecks runs the implementation's own sanity checkers on the current
+// state (reference oracles, independent of the Coq model and of the oracle of
+// this file): (a) the genesis export of the registry application followed by
+// registry Genesis.SanityCheck; (b) the stake-claim cross-check of the
+// supplementary sanity checker (registry.AddStakeClaims recomputed from all
+// registered entities/nodes/runtimes, compared by staking.SanityCheckStake with
+// the claims recorded in the staking accounts).
+func (w *world) referenceChecks(stats map[string]int) string {
+	ctx := w.ctx
+	entities, err := w.state.Entities(ctx)
+	must(err)
+	nodes, err := w.state.Nodes(ctx)
+	must(err)
+	// Genesis.SanityCheck demands that every exported (validator) node is STILL in
+	// its entity's node list, which the transaction path only demands at
+	// registration time: an entity may re-register with a shorter list while
+	// the node stays registered.  Such end states are legitimately reachable
+	// and rejected by the genesis check; they are counted, not reported.
+	dropped := false
+	for _, n := range nodes {
+		for _, e := range entities {
+			if e.ID.Equal(n.EntityID) && !e.HasNode(n.ID) && n.HasRoles(node.RoleValidator) {
+				dropped = true
+			}
+		}
+	}
+	q := registryApp.NewQuery(registryState.NewImmutableState(ctx.State()), beaconState.NewImmutableState(ctx.State()))
+	gen, err := q.Genesis(ctx)
+	if err != nil {
+		return "registry genesis export failed: " + err.Error()
+	}
+	err = gen.SanityCheck(ctx.Now(), uint64(ctx.LastHeight()), w.cfg.CurrentEpoch, nil, map[staking.Address]*staking.EscrowAccount{})
+	switch {
+	case err != nil && dropped && strings.Contains(err.Error(), "node public key not found in entity's node list"):
+		stats["misc:genesis_sanity_rejects_node_dropped_from_entity_list"]++
+	case err != nil:
+		return "registry Genesis.SanityCheck rejects the exported state: " + err.Error()
+	default:
+		stats["misc:genesis_sanity_accepts"]++
+	}
+	runtimes, err := w.state.AllRuntimes(ctx)
+	must(err)
+	accounts := map[staking.Address]*staking.Account{}
+	addrs, err := w.stake.Addresses(ctx)
+	must(err)
+	for _, a := range addrs {
+		accounts[a], err = w.stake.Account(ctx, a)
+		must(err)
+	}
+	escrows := map[staking.Address]*staking.EscrowAccount{}
+	if err = registry.AddStakeClaims(entities, nodes, runtimes, runtimes, escrows); err != nil {
+		return "registry.AddStakeClaims failed: " + err.Error()
+	}
+	params, err := w.stake.ConsensusParameters(ctx)
+	must(err)
+	if err = staking.SanityCheckStake(accounts, escrows, params.Thresholds, false); err != nil {
+		return "stake claims differ from those implied by the registrations (staking.SanityCheckStake): " + err.Error()
+	}
+	return ""
+}
+
 func buildNode(d *NodeD) *node.Node {
 	var address node.Address
 	must(address.UnmarshalText([]byte("8.8.8.8:1234")))
@@ -342,6 +407,12 @@ func errCode(err error) string {
 		return "CEntityHasNodes"
 	case errors.Is(err, registry.ErrEntityHasRuntimes):
 		return "CEntityHasRuntimes"
+	case errors.Is(err, registry.ErrBadEntityForNode):
+		return "CBadEntityForNode"
+	case errors.Is(err, registry.ErrNodeCannotBeUnfrozen):
+		return "CNodeCannotBeUnfrozen"
+	case errors.Is(err, registry.ErrNoSuchNode):
+		return "CNoSuchNode"
 	case errors.Is(err, registry.ErrForbidden):
 		return "CForbidden"
 	case errors.Is(err, registry.ErrRuntimeUpdateNotAllowed):
@@ -443,6 +514,17 @@ func (w *world) apply(o Op) (code string, info string) {
 		return errCode(err), ""
 	case "suspendrt":
 		return errCode(w.state.SuspendRuntime(w.ctx, rtID(o.Rt))), ""
+	case "unfreeze":
+		tx := registry.NewUnfreezeNodeTx(0, nil, &registry.UnfreezeNode{NodeID: pub(o.ID)})
+		return errCode(w.execTx(o.Txs, func(ctx *abciAPI.Context) error { return w.app.ExecuteTx(ctx, tx) })), ""
+	case "freeze":
+		// what the slashing / liveness code of other applications does
+		st, err := w.state.NodeStatus(w.ctx, pub(o.ID))
+		if err != nil {
+			return errCode(err), ""
+		}
+		st.Freeze(beacon.EpochTime(o.Epoch))
+		return errCode(w.state.SetNodeStatus(w.ctx, pub(o.ID), st)), ""
 	case "epoch":
 		w.cfg.CurrentEpoch = beacon.EpochTime(o.Epoch)
 		w.cfg.EpochChanged = true
@@ -470,6 +552,7 @@ type dump struct {
 	Rts      map[int]*RtD  // registered runtimes (active or suspended)
 	RtSusp   map[int]bool
 	Epoch    uint64
+	Status   [][]int // per key with a status record: [key, expiration processed, freeze end, ineligible]
 }
 
 // claimsOf renders the claims of an account: entity claim 0, node claims id+1,
@@ -535,6 +618,11 @@ func (w *world) dump() *dump {
 		return 888888
 	}
 	for k := 0; k <= poolSize; k++ {
+		if st, err := w.state.NodeStatus(ctx, pub(k)); err == nil {
+			d.Status = append(d.Status, []int{k, b2i(st.ExpirationProcessed), int(st.FreezeEndTime), b2i(st.ElectionEligibleAfter == beacon.EpochInvalid)})
+		} else if !errors.Is(err, registry.ErrNoSuchNode) {
+			panic(err)
+		}
 		d.Sub = append(d.Sub, look(w.state.NodeBySubKey(ctx, pub(k))))
 		d.Addr = append(d.Addr, look(w.state.NodeByConsensusAddress(ctx, addrOf(pub(k)))))
 	}
@@ -654,6 +742,11 @@ func (d *dump) coq() string {
 	for r := 1; r <= nRts; r++ {
 		rows = append(rows, ints(append([]int{2000 + r}, d.RtClaims[r]...)))
 	}
+	var st []int
+	for _, x := range d.Status {
+		st = append(st, x...)
+	}
+	rows = append(rows, ints(st))
 	return "[" + strings.Join(rows, "; ") + "]"
 }
 
@@ -740,6 +833,18 @@ func indexCheck(d *dump, layerTx bool) string {
 		}
 	}
 	if layerTx {
+		has := map[int]bool{}
+		for _, x := range d.Status {
+			has[x[0]] = true
+			if d.node(x[0]) == nil {
+				return fmt.Sprintf("status record of %d exists although no such node is registered", x[0])
+			}
+		}
+		for _, n := range d.Nodes {
+			if !has[n.ID] {
+				return fmt.Sprintf("registered node %d has no status record", n.ID)
+			}
+		}
 		for r := 1; r <= nRts; r++ {
 			if want := impliedRtClaims(d, 2*r+1); ints(want) != ints(d.RtClaims[r]) {
 				return fmt.Sprintf("stake claims of runtime account %d are %v but the registrations imply %v", r, d.RtClaims[r], want)
@@ -878,6 +983,34 @@ func authorityCheck(o Op, code string, before, after *dump) string {
 					return fmt.Sprintf("active node %d dropped runtime %d in an update", id, r)
 				}
 			}
+		}
+	}
+	stOf := func(d *dump, id int) []int {
+		for _, x := range d.Status {
+			if x[0] == id {
+				return x
+			}
+		}
+		return nil
+	}
+	for id := 0; id <= poolSize; id++ {
+		b, a := stOf(before, id), stOf(after, id)
+		if b == nil || a == nil || b[2] == a[2] {
+			continue
+		}
+		// the freeze end of a persisting status record changed
+		switch {
+		case o.K == "freeze" && o.ID == id && a[2] == int(o.Epoch):
+		case o.K == "unfreeze" && o.ID == id && a[2] == 0:
+			n := before.node(id)
+			if n == nil || o.Txs != n.Ent {
+				return fmt.Sprintf("node %d unfrozen by a transaction signed by %d which is not its entity", id, o.Txs)
+			}
+			if uint64(b[2]) > before.Epoch {
+				return fmt.Sprintf("node %d unfrozen at epoch %d before its freeze end %d", id, before.Epoch, b[2])
+			}
+		default:
+			return fmt.Sprintf("freeze end of node %d changed from %d to %d by operation %s", id, b[2], a[2], o.K)
 		}
 	}
 	for r := 1; r <= nRts; r++ {
@@ -1020,6 +1153,10 @@ func coqOp(o Op) string {
 		return fmt.Sprintf("TRegRuntime %d (mkRt %d %d %d %d %s)", o.Caller, o.Runtime.ID, o.Runtime.Ent, o.Runtime.Kind, o.Runtime.Gov, wl)
 	case "suspendrt":
 		return fmt.Sprintf("LSuspendRt %d", o.Rt)
+	case "unfreeze":
+		return fmt.Sprintf("TUnfreeze %d %d", o.Txs, o.ID)
+	case "freeze":
+		return fmt.Sprintf("LFreeze %d %d", o.ID, o.Epoch)
 	}
 	panic("unknown op")
 }
@@ -1106,6 +1243,12 @@ func runCase(c Case) (res runResult) {
 			}
 		}
 		before = after
+	}
+	if oracleOn && layerTx && res.violated == "" {
+		if what := w.referenceChecks(res.stats); what != "" {
+			res.violated = fmt.Sprintf("op %d (end of history): %s", len(c.Ops)-1, what)
+		}
+		res.stats["misc:reference_sanity_checks_run"]++
 	}
 	if oracleOn {
 		res.stats["misc:oracle_on_to_the_end"]++
@@ -1355,6 +1498,18 @@ func genTx(r *prng.R) Case {
 			d.Roles, d.Rts = 1, []int{4}
 		}
 	}
+	liveID := func() int {
+		var ids []int
+		for _, id := range nodeIDs {
+			if sh.nodes[id] != nil {
+				ids = append(ids, id)
+			}
+		}
+		if len(ids) > 0 && r.Chance(85) {
+			return pick(r, ids)
+		}
+		return pick(r, nodeIDs)
+	}
 	n := r.Range(6, 28)
 	for len(c.Ops) < n {
 		x := r.Intn(100)
@@ -1376,8 +1531,20 @@ func genTx(r *prng.R) Case {
 			}
 		case x < 25:
 			c.Ops = append(c.Ops, regRt(r.Range(1, nRts)))
-		case x < 29:
+		case x < 28:
 			c.Ops = append(c.Ops, Op{K: "suspendrt", Rt: r.Range(1, nRts)})
+		case x < 31:
+			c.Ops = append(c.Ops, Op{K: "freeze", ID: liveID(), Epoch: sh.epoch + uint64(r.Intn(4))})
+		case x < 35:
+			id := liveID()
+			t := 1 + (id-nEnts-1)%nEnts
+			if nd := sh.nodes[id]; nd != nil {
+				t = nd.Ent
+			}
+			if r.Chance(20) {
+				t = r.Range(1, poolSize)
+			}
+			c.Ops = append(c.Ops, Op{K: "unfreeze", Txs: t, ID: id})
 		case x < 42:
 			sh.epoch += uint64(pick(r, []int{1, 1, 1, 2, 2, 3, 4, 6}))
 			c.Ops = append(c.Ops, Op{K: "epoch", Epoch: sh.epoch})
@@ -1588,6 +1755,11 @@ func fixedCases() []Case {
 		return Op{K: "regnode", Txs: 4, Node: d, Signers: []int{4, 9, 8, 11, 10}, SigOK: true}
 	}
 	return []Case{
+		// freezing: the freeze end survives a renewal and a re-registration after expiry; only the
+		// node's entity may unfreeze, and only once the freeze end has passed; removal deletes the status
+		{Layer: "tx", Ops: []Op{ent, entB, reg(9, 10, 11, 2), {K: "freeze", ID: 4, Epoch: 3}, {K: "unfreeze", Txs: 1, ID: 4},
+			reg(9, 10, 11, 3), {K: "epoch", Epoch: 4}, {K: "unfreeze", Txs: 2, ID: 4}, reg(9, 10, 11, 6), {K: "unfreeze", Txs: 4, ID: 4},
+			{K: "unfreeze", Txs: 1, ID: 4}, {K: "freeze", ID: 4, Epoch: 20}, {K: "epoch", Epoch: 12}, {K: "unfreeze", Txs: 1, ID: 4}, {K: "freeze", ID: 4, Epoch: 20}}},
 		// runtime owner change: the claim and the runtime-by-entity entry move from entity 1 to entity 2
 		{Layer: "tx", Ops: []Op{ent, entB, rtop(2, 1, 1, 1, 1), {K: "deregent", Txs: 1}, rtop(4, 1, 2, 1, 1), rtop(2, 1, 2, 1, 1),
 			{K: "deregent", Txs: 1}, {K: "deregent", Txs: 2}}},
@@ -1643,6 +1815,7 @@ func main() {
 		os.Exit(2)
 	}
 	_ = logging.Initialize(io.Discard, logging.FmtLogfmt, logging.LevelError, nil)
+	viper.Set(cmdFlags.CfgDebugDontBlameOasis, true) // the registry parameters carry debug flags (test runtimes, immediate deployment)
 	initPool()
 	hdr := "From Verif Require Import Lib.Base Registry.Model Gen.RegistryConsts.\n"
 	wb := coqout.NewWriter(*out, hdr, "run_case_b setnode_removals_first", "list_eqb obs_eqb", 26)
